@@ -141,6 +141,7 @@ struct RunOptions {
   int pctDepth = 0; // >0: PCT-style priorities with that many change points; 0: uniform
   size_t maxSteps = 100000;
   double watchdogSec = 20.0;
+  double blockedGraceSec = 15.0; // how long to wait for a really-blocked thread (join) to come back
   // After the schedule is exhausted in Replay mode: continue with the lowest-index runnable thread
   // until everything finishes (the tail is still recorded and validated).
   bool finishAfterReplay = true;
@@ -192,8 +193,23 @@ class Controller {
 // ------------------------------------------------------------------- calls made by logical threads
 // Schedule point placed by driver code (same semantics as DISPENSO_VERIF_POINT).
 void point(const char* site, const void* obj = nullptr);
+// Schedule point that is only enabled while pred() holds; pred is evaluated by the controller
+// while no logical thread runs (e.g. "all pool workers are parked").
+void gate(const char* site, std::function<bool()> pred);
+// Only sites accepted by the filter are schedule points (others pass through).  nullptr = all.
+void setSiteFilter(bool (*filter)(const char* site));
+// Snapshot helpers for projections / gate predicates (call only from the controller context).
+struct WaiterInfo {
+  std::string name;
+  const void* addr;
+};
+std::vector<WaiterInfo> futexWaiters();
+// true iff every library-created (dynamic) thread that is not finished is blocked in the futex
+bool allDynamicThreadsParked();
+int liveDynamicThreads();
 // Attach a value to the event of the step currently executing (thread-local; no schedule point).
 void ret(long long v);
+void note(const char* tag, long long a, long long b = 0);
 void retStr(const std::string& v);
 // Name of the calling logical thread ("" if not a logical thread).
 const std::string& selfName();
